@@ -23,6 +23,31 @@ func Budget(tier string, quick, thorough time.Duration) time.Time {
 	return time.Now().Add(quick)
 }
 
+// Clock splits the budget of a check over its searches: each search may use an equal share of what is left (time a
+// search does not use rolls over to the later ones).
+type Clock struct {
+	end  time.Time
+	left int
+}
+
+// NewClock returns a clock for n searches.
+func NewClock(tier string, quick, thorough time.Duration, n int) *Clock {
+	return &Clock{end: Budget(tier, quick, thorough), left: n}
+}
+
+// Next returns the deadline of the next search.
+func (c *Clock) Next() time.Time {
+	if c.left < 1 {
+		c.left = 1
+	}
+	d := time.Until(c.end) / time.Duration(c.left)
+	c.left--
+	if d < 2*time.Second {
+		d = 2 * time.Second
+	}
+	return time.Now().Add(d)
+}
+
 // Search runs one BFS and merges its result into the report under the given label.
 func Search(rep *report.Report, label string, o *Options, depth int, deadline time.Time) mc.Result {
 	res := mc.BFS(mc.Config{Letters: Names(o.Letters), New: New(o), MaxDepth: depth, Deadline: deadline})
@@ -63,7 +88,7 @@ var c01Letters = []string{
 // RunC01 decides C01 at the RIB tier.
 func RunC01(rep *report.Report, tier string) {
 	depth := 4
-	dl := Budget(tier, 100*time.Second, 20*time.Minute)
+	ck := NewClock(tier, 100*time.Second, 20*time.Minute, 5)
 	if tier == "thorough" {
 		depth = 6
 	}
@@ -71,11 +96,11 @@ func RunC01(rep *report.Report, tier string) {
 	rep.Set("alphabet", Names(letters))
 	for _, nofwd := range []bool{false, true} {
 		o := &Options{Letters: letters, NoFwdRefs: nofwd, Checks: Checks{Fold: true}}
-		Search(rep, fmt.Sprintf("rib/forward-refs-%v", !nofwd), o, depth, dl)
+		Search(rep, fmt.Sprintf("rib/forward-refs-%v", !nofwd), o, depth, ck.Next())
 	}
 	for _, name := range []string{"held-operations", "groups-installed", "entries-installed"} {
 		o := &Options{Letters: letters, Checks: Checks{Fold: true}, Init: Alphabet(ribInits[name]...)}
-		Search(rep, "rib/from-"+name, o, depth-1, dl)
+		Search(rep, "rib/from-"+name, o, depth-1, ck.Next())
 	}
 }
 
@@ -105,7 +130,7 @@ var c02Graphs = map[string][]string{
 // RunC02 decides C02 at the RIB tier.
 func RunC02(rep *report.Report, tier string) {
 	depth, maxGraph := 4, 7
-	dl := Budget(tier, 100*time.Second, 20*time.Minute)
+	ck := NewClock(tier, 100*time.Second, 20*time.Minute, 12)
 	if tier == "thorough" {
 		depth, maxGraph = 6, 7
 	}
@@ -118,7 +143,7 @@ func RunC02(rep *report.Report, tier string) {
 		}
 		for _, nofwd := range []bool{false, true} {
 			o := &Options{Letters: Alphabet(ls...), NoFwdRefs: nofwd, Checks: Checks{Resolve: true, Fold: true}}
-			res := mc.BFS(mc.Config{Letters: ls, New: New(o), MaxDepth: len(ls), Deadline: dl, Enabled: func(h []int, l int) bool {
+			res := mc.BFS(mc.Config{Letters: ls, New: New(o), MaxDepth: len(ls), Deadline: ck.Next(), Enabled: func(h []int, l int) bool {
 				for _, x := range h {
 					if x == l {
 						return false
@@ -131,7 +156,7 @@ func RunC02(rep *report.Report, tier string) {
 	}
 	for _, nofwd := range []bool{false, true} {
 		o := &Options{Letters: letters, NoFwdRefs: nofwd, Checks: Checks{Resolve: true, Fold: true}}
-		Search(rep, fmt.Sprintf("mixed/forward-refs-%v", !nofwd), o, depth, dl)
+		Search(rep, fmt.Sprintf("mixed/forward-refs-%v", !nofwd), o, depth, ck.Next())
 	}
 }
 
@@ -149,7 +174,7 @@ var c03Letters = []string{
 // RunC03 decides C03 at the RIB tier.
 func RunC03(rep *report.Report, tier string) {
 	depth := 4
-	dl := Budget(tier, 100*time.Second, 20*time.Minute)
+	ck := NewClock(tier, 100*time.Second, 20*time.Minute, 2+len(c03Inits))
 	names := append([]string{}, c03Letters...)
 	if tier == "thorough" {
 		depth = 6
@@ -163,12 +188,12 @@ func RunC03(rep *report.Report, tier string) {
 		if tier != "thorough" && !nofwd {
 			d = depth - 1 // the searches from non-initial states below go deeper where it matters
 		}
-		Search(rep, fmt.Sprintf("rib/forward-refs-%v", !nofwd), o, d, dl)
+		Search(rep, fmt.Sprintf("rib/forward-refs-%v", !nofwd), o, d, ck.Next())
 	}
 	// from non-initial states: all next-hops and groups installed / additionally every top-level entry installed
 	for name, init := range c03Inits {
 		o := &Options{Letters: letters, Checks: Checks{Referrers: true}, Init: Alphabet(init...)}
-		Search(rep, "rib/from-"+name, o, depth-1, dl)
+		Search(rep, "rib/from-"+name, o, depth-1, ck.Next())
 	}
 }
 
@@ -189,7 +214,7 @@ var c16Letters = []string{
 // RunC16 decides the post-change-hook half of C16 at the RIB tier.
 func RunC16(rep *report.Report, tier string) {
 	depth := 4
-	dl := Budget(tier, 100*time.Second, 20*time.Minute)
+	ck := NewClock(tier, 100*time.Second, 20*time.Minute, 9)
 	if tier == "thorough" {
 		depth = 5
 	}
@@ -197,11 +222,24 @@ func RunC16(rep *report.Report, tier string) {
 	rep.Set("alphabet", Names(letters))
 	for _, hc := range []HookConfig{HookAfterNIs, HookBeforeNIs} {
 		o := &Options{Letters: letters, Checks: Checks{Hooks: true}, Hook: hc}
-		Search(rep, fmt.Sprintf("rib/hook-config-%d", hc), o, depth, dl)
+		Search(rep, fmt.Sprintf("rib/hook-config-%d", hc), o, depth, ck.Next())
 		for _, name := range []string{"held-operations", "entries-installed"} {
 			o := &Options{Letters: letters, Checks: Checks{Hooks: true}, Hook: hc, Init: Alphabet(ribInits[name]...)}
-			Search(rep, fmt.Sprintf("rib/hook-config-%d/from-%s", hc, name), o, depth-1, dl)
+			Search(rep, fmt.Sprintf("rib/hook-config-%d/from-%s", hc, name), o, depth-1, ck.Next())
 		}
+	}
+	// resolved-entry hook (runs in its own goroutine): whole histories under the controlled runtime
+	rl := Alphabet("ADD nh1@D a", "ADD nhg1@D {1}", "ADD nh1@V", "ADD nhg1@V {1}", "ADD v4 p@D ->1", "ADD v4 p@D ->1 meta", "ADD v4 p@D ->1@V", "DELETE v4 p@D", "ADD v4 p@V ->1",
+		"ADD v6 q@D ->1", "DELETE v6 q@D", "ADD mpls 100@D ->1", "DELETE mpls 100@D", "DELETE nhg1@D", "FLUSH D", "FLUSH all")
+	for name, d := range map[string]int{"": depth - 1, "held-operations": depth - 2, "entries-installed": depth - 2} {
+		o := &Options{Letters: rl}
+		label := "resolved-entry-hook/from-empty"
+		if name != "" {
+			o.Init = Alphabet(ribInits[name]...)
+			label = "resolved-entry-hook/from-" + name
+		}
+		res := mc.BFS(mc.Config{Letters: Names(rl), New: NewResolved(o), MaxDepth: d, Deadline: ck.Next(), Workers: 1})
+		Merge(rep, label, res, d)
 	}
 }
 
@@ -216,16 +254,16 @@ var c07Letters = []string{
 // RunC07Hist is the history tier of C07: the Get stream after every step of every history.
 func RunC07Hist(rep *report.Report, tier string) {
 	depth := 3
-	dl := Budget(tier, 100*time.Second, 20*time.Minute)
+	ck := NewClock(tier, 100*time.Second, 20*time.Minute, 3)
 	if tier == "thorough" {
 		depth = 5
 	}
 	letters := Alphabet(c07Letters...)
 	rep.Set("history_alphabet", Names(letters))
 	o := &Options{Letters: letters, Checks: Checks{GetFold: true}}
-	Search(rep, "get-after-every-step/from-empty", o, depth, dl)
+	Search(rep, "get-after-every-step/from-empty", o, depth, ck.Next())
 	for _, name := range []string{"entries-installed", "held-operations"} {
 		o := &Options{Letters: letters, Checks: Checks{GetFold: true}, Init: Alphabet(ribInits[name]...)}
-		Search(rep, "get-after-every-step/from-"+name, o, depth, dl)
+		Search(rep, "get-after-every-step/from-"+name, o, depth, ck.Next())
 	}
 }
